@@ -54,3 +54,6 @@ theorem tab_congr {α} (n : ℕ) (f g : ℕ → α) (h : ∀ i < n, f i = g i) :
     simp only [tab, Array.getElem_map, Array.getElem_range]
     apply h
     simpa [tab] using h1
+
+noncomputable instance : HasFloor ℝ := ⟨fun x => (⌊x⌋ : ℝ)⟩
+@[simp] theorem HasFloor_floor (x : ℝ) : HasFloor.floor x = (⌊x⌋ : ℝ) := rfl
